@@ -68,7 +68,7 @@ fn matches(w: &World, r: &RowF, q: &Q) -> bool {
     if let Some([a, b]) = q.fblock { if r.number < a || r.number >= b { return false; } }
     true
 }
-fn cell_is_row(w: &World, c: &Cell, r: &RowF, q: &Q) -> bool {
+fn cell_is_row(w: &World, c: &Cell, r: RowF, q: &Q) -> bool {
     let out = w.txs[r.tx as usize].outs[r.oi as usize];
     c.out_point.tx == r.tx && c.out_point.index == r.oi && c.block_number == r.number && c.tx_index.0 == r.ti && c.output.0 == out
         && c.output_data.is_some() == q.with_data.unwrap_or(true)
@@ -96,6 +96,9 @@ fn any_world(q: &Q) -> [RowF; NROWS] {
     rf
 }
 fn world() -> &'static World { unsafe { WORLD.as_ref().unwrap() } }
+/// key of row i, copied out BY VALUE through constant indices: a borrow of `world().rows[i].key` with a symbolic `i` made CBMC 6.11 evaluate
+/// `==` against other bytes than a by-value copy of the same place (see DESIGN.md 11.3); harness code never borrows a place at a symbolic index
+fn key_of(i: usize) -> Vec<u8> { let w = world(); let mut k = w.rows[0].key; let mut j = 1; while j < NROWS { if i == j { k = w.rows[j].key; } j += 1; } k }
 /// indices of the matching rows in key order
 fn expected(rf: &[RowF; NROWS], q: &Q) -> ([usize; NROWS], usize) {
     let w = world(); let mut m = [0usize; NROWS]; let mut n = 0; let mut i = 0;
@@ -118,9 +121,9 @@ fn cells_full_g(filters: bool) {
             let mut j = 0;
             while j < NROWS { if j < n && j < p.objects.len {
                 let want = if asc { m[j] } else { m[n - 1 - j] };
-                assert!(cell_is_row(w, &p.objects.buf[j], &rf[want], &q), "SPEC query: entries are not in key order (descending = reverse of ascending), or an entry carries the wrong out-point / output / data / block number / tx index");
+                assert!(cell_is_row(w, &p.objects.buf[j], rf[want], &q), "SPEC query: entries are not in key order (descending = reverse of ascending), or an entry carries the wrong out-point / output / data / block number / tx index");
             } j += 1; }
-            if n > 0 { let last = if asc { m[n - 1] } else { m[0] }; assert!(padded(&p.last_cursor.0) == w.rows[last].key, "SPEC query: last_cursor is not the key of the last returned entry"); }
+            if n > 0 { let last = if asc { m[n - 1] } else { m[0] }; let want = key_of(last); let got = padded(&p.last_cursor.0); assert!(got == want, "SPEC query: last_cursor is not the key of the last returned entry"); }
             kani::cover!(n + 1 == w.nrows && n >= 1, "all rows but one match");
             kani::cover!(n == NROWS && !asc, "every row matches, descending");
         }
@@ -138,13 +141,13 @@ fn cells_pages_g(filters: bool) {
     let p1 = match rpc().get_cells(search_key(&q), order(), Uint32(l1), None) { Ok(p) => p, Err(_) => { assert!(false, "SPEC query: a well-formed get_cells query is rejected"); return; } };
     let n1 = if (l1 as usize) < n { l1 as usize } else { n };
     assert!(p1.objects.len == n1, "SPEC pages: the first page does not hold min(limit, matches) entries");
-    let mut j = 0; while j < 2 { if j < n1 && j < p1.objects.len { assert!(cell_is_row(w, &p1.objects.buf[j], &rf[at(j)], &q), "SPEC pages: first page is not the first entries in key order"); } j += 1; }
+    let mut j = 0; while j < 2 { if j < n1 && j < p1.objects.len { assert!(cell_is_row(w, &p1.objects.buf[j], rf[at(j)], &q), "SPEC pages: first page is not the first entries in key order"); } j += 1; }
     if n1 == 0 { return; }
     // follow the cursor
     let p2 = match rpc().get_cells(search_key(&q), order(), Uint32(l2), Some(p1.last_cursor)) { Ok(p) => p, Err(_) => { assert!(false, "SPEC query: a well-formed get_cells query is rejected"); return; } };
     let rest = n - n1; let n2 = if (l2 as usize) < rest { l2 as usize } else { rest };
     assert!(p2.objects.len == n2, "SPEC pages: following last_cursor skips or repeats an entry (second page has the wrong number of entries)");
-    let mut j = 0; while j < 2 { if j < n2 && j < p2.objects.len { assert!(cell_is_row(w, &p2.objects.buf[j], &rf[at(n1 + j)], &q), "SPEC pages: following last_cursor skips or repeats an entry"); } j += 1; }
+    let mut j = 0; while j < 2 { if j < n2 && j < p2.objects.len { assert!(cell_is_row(w, &p2.objects.buf[j], rf[at(n1 + j)], &q), "SPEC pages: following last_cursor skips or repeats an entry"); } j += 1; }
     kani::cover!(n == NROWS && n1 == 1 && n2 == NROWS - 1, "page of one followed by the rest");
     kani::cover!(n == NROWS && !asc && n1 + n2 == NROWS, "descending pages");
 }
